@@ -6,6 +6,9 @@ from harness import lib
 
 
 def main():
+    if sys.argv[1] == '--replay':          # bin/check --replay <file>: the property is recorded in the file
+        obj = json.load(open(sys.argv[2]))
+        sys.argv = [sys.argv[0], obj['property'], '--replay', sys.argv[2]]
     prop = sys.argv[1]
     mod = importlib.import_module('harness.props.' + prop.lower())
     if len(sys.argv) > 3 and sys.argv[2] == '--replay':
